@@ -127,6 +127,7 @@ def unit_text(mutant=None):
             for val in ("true", "false"):
                 g = f.replace("RecomputeOutputsDirtyCache::RecomputeOutputDirty(", "RecomputeOutputsDirtyCache::RecomputeOutputDirty_%s(" % val, 1)
                 g, k = re.subn(r'IF_FIRSTRUN\s*\(', 'IF_FIRSTRUN_%s (' % val.upper(), g)
+                g = re.sub(r'\bFIRSTRUN\b', val, g)          # the template parameter itself, where the body names it
                 inst.append(g)
             f = "\n\n".join(inst)
         parts.append(f)
